@@ -18,10 +18,15 @@ def replay_dict(angle, tol, got, why, via="get_angle_spec_from_float", **kw):
     return d
 
 
-def check_one(ctx, impl, angle, tol, via="get_angle_spec_from_float", got=None, st="ok", extra=None, stats=None):
-    """oracle on one call; records the violation.  Returns (nds|None, oracle dict)."""
+def check_one(ctx, impl, angle, tol, via="get_angle_spec_from_float", got=None, st="ok", extra=None, stats=None, obs=None):
+    """oracle on one call; records the violation.  Returns (nds|None, oracle dict).
+    obs: a list that receives the (rest, tol_rest) observed inside the implementation."""
     if via == "get_angle_spec_from_float":
-        got, st = impl.spec(angle, tol)
+        if obs is not None:
+            got, st, o_ = impl.spec_traced(angle, tol)
+            obs.append(o_)
+        else:
+            got, st = impl.spec(angle, tol)
         if st == "timeout" and stats is not None:
             stats["timeouts"] = stats.get("timeouts", 0) + 1
     o = ac.oracle(angle, tol, got)
@@ -35,20 +40,79 @@ def check_one(ctx, impl, angle, tol, via="get_angle_spec_from_float", got=None, 
     return got, o
 
 
+def rots_of_record(rec):
+    if "rots" in rec:
+        return [ac.rot_from_json(o) for o in rec["rots"]]
+    r = dict(axis=rec.get("axis", "Z"), angle=float.fromhex(rec["angle"]))
+    for k in ("n", "d"):
+        if k in rec:
+            r[k] = rec[k]
+    return [r]
+
+
+def builder_check(ctx, impl, rots, stats=None, cases=None, extra=None):
+    """One real connection: rot_<axis>(n=, d=, angle=) calls on one qubit, the committed bytes decoded
+    again.  Per call:  angle given (with or without n, d)  -> the emitted (n, d) list must be what
+    get_angle_spec_from_float(angle) returns AND realise the ANGLE (oracle);  angle not given -> exactly
+    one instruction carrying (n, d).  Returns the number of rotation calls checked."""
+    tol = impl.default_tol
+    rj = [ac.rot_json(r) for r in rots]
+    ex = dict(extra or {})
+
+    def rec(i, got, why, **kw):
+        r = rots[i]
+        a = r.get("angle")
+        d = dict(via="builder", rots=rj, index=i, axis=r["axis"], n=r.get("n"), d=r.get("d"),
+                 angle=rj[i].get("angle"), angle_repr=rj[i].get("angle_repr"), tol=float(tol).hex(), got=got, why=why)
+        d.update(ex)
+        d.update(kw)
+        return d
+
+    refusal_ok = any(r.get("angle") is None and not (0 <= r.get("n", 0) <= 255 and 0 <= r.get("d", 0) <= 255) for r in rots)
+    segs = impl.emit(rots)
+    if segs is None:
+        if not refusal_ok:
+            ctx.violation("rot_X/Y/Z(...) raised", rec(0, None, "builder raised"))
+            if cases is not None:
+                for r in rots:
+                    if r.get("angle") is not None:
+                        cases.append((float(r["angle"]), tol, None))
+        return len(rots)
+    for i, (r, seg) in enumerate(zip(rots, segs)):
+        got = [[n, d] for (_, n, d) in seg]
+        mn_ok = all(m == "rot_" + r["axis"].lower() for (m, _, _) in seg)
+        if r.get("angle") is not None:
+            a = float(r["angle"])
+            want, _ = impl.spec(r["angle"], tol)
+            if want is None or got != want or not mn_ok:
+                ctx.violation("emitted rotation instructions differ from get_angle_spec_from_float(angle)",
+                              rec(i, got, "builder emits other steps than the toolbox returns for the angle", want=want,
+                                  emitted=[list(x) for x in seg]))
+            # the property itself: the emitted list realises the ANGLE, whatever n and d were passed along
+            check_one(ctx, impl, a, tol, via="builder", got=got, st="emitted",
+                      extra=dict(rots=rj, index=i, axis=r["axis"], n=r.get("n"), d=r.get("d"), **ex), stats=stats)
+            if cases is not None:
+                cases.append((a, tol, got))
+            ctx.note_case((json.dumps(rj[i], sort_keys=True), "builder"), nontrivial=bool(got))
+        else:
+            n, d = r.get("n", 0), r.get("d", 0)
+            if got != [[n, d]] or not mn_ok:
+                ctx.violation("rot_<axis>(n, d) without angle did not emit exactly one instruction carrying (n, d)",
+                              rec(i, got, "n/d route altered", emitted=[list(x) for x in seg]))
+            ctx.note_case((json.dumps(rj[i], sort_keys=True), "builder-nd"), nontrivial=True)
+    return len(rots)
+
+
 def run_corpus(ctx, impl):
     """fixed defects must stay fixed; recorded findings are replayed through the oracle"""
     n = 0
     for p in sorted(glob.glob(os.path.join(CORPUS, "*.json"))):
         for rec in json.load(open(p))["cases"]:
-            angle, tol = float.fromhex(rec["angle"]), float.fromhex(rec["tol"])
             n += 1
             if rec.get("via") == "builder":
-                em = impl.emit([(rec.get("axis", "Z"), angle)])
-                got = None if em is None else [[x[1], x[2]] for x in em]
-                check_one(ctx, impl, angle, tol, via="builder", got=got, st="emitted" if em is not None else "raised",
-                          extra=dict(corpus=os.path.basename(p), axis=rec.get("axis", "Z")))
+                builder_check(ctx, impl, rots_of_record(rec), extra=dict(corpus=os.path.basename(p)))
             else:
-                check_one(ctx, impl, angle, tol, extra=dict(corpus=os.path.basename(p)))
+                check_one(ctx, impl, float.fromhex(rec["angle"]), float.fromhex(rec["tol"]), extra=dict(corpus=os.path.basename(p)))
     return n
 
 
@@ -58,7 +122,7 @@ def run(ctx):
                 "m*pi/2^k and +-1..3 ulp; rest next to 255/2^k, 127/2^k, 128/2^k (d-window edges); within tol of 0 and of 2pi "
                 "in radians and in half turns, both signs) + random (uniform [0,2pi), [-2pi,0), 2pi<|a|<100, 1e-12<|a|<1, "
                 "1e2<|a|<1e6, 1e6<|a|<1e18), tol in {1e-1..1e-9} or log-uniform; plus rot_X/Y/Z(angle=) on a real connection "
-                "(default tol). Every case: implementation vs Coq model as exact (n,d) lists, and the oracle "
+                "(default tol; three routes: angle only, angle together with non-default n and d - which the documentation says are ignored -, n and d only - emitted verbatim; a Hadamard separates the calls). Every case: implementation vs Coq model as exact (n,d) lists, and the oracle "
                 "(1<=n<=255, 0<=d<=255, circle distance |sum n*pi/2^d - angle| <= tol + 2^-49 in 80-digit rationals). "
                 "non-trivial = at least one rotation step emitted; distinct = distinct (angle bits, tol bits, route)")
     impl = ac.Impl(ctx.repo)
@@ -86,9 +150,11 @@ def run(ctx):
     n_corpus = run_corpus(ctx, impl)
 
     # ---- generated stream: implementation + oracle
-    n_rand = 9000 if quick else 600000
+    n_rand = 9000 if quick else 400000
     gen = ac.gen_cases(ctx.rng, n_rand)
     cases, cls_count, len_count, tol_count, maxd = [], {}, {}, {}, 0
+    fcases, unobserved = [], 0
+    n_front = 10 ** 9 if quick else 40000     # calls whose front-end values are observed and compared
     fe_max, fe_arg, fe_by_decade = 0.0, None, {}
     excess_max, excess_arg = -1.0, None
     for angle, tol, cls in gen:
@@ -98,7 +164,14 @@ def run(ctx):
             ctx.notes.append("generation stopped after 3 calls that did not return within 2 s")
             gen = gen[:len(cases)]
             break
-        got, o = check_one(ctx, impl, angle, tol, stats=stats)
+        ob = []
+        got, o = check_one(ctx, impl, angle, tol, stats=stats, obs=ob if len(cases) < n_front else None)
+        if ob:
+            if ob[0] is None:
+                unobserved += 1
+                fcases.append((angle, tol) + ac.front_replica(angle, tol))
+            else:
+                fcases.append((angle, tol) + ob[0])
         cases.append((angle, tol, got))
         cls_count[cls] = cls_count.get(cls, 0) + 1
         ln = -1 if got is None else len(got)
@@ -127,36 +200,14 @@ def run(ctx):
     # ---- builder route: rot_X/Y/Z(angle=...) -> bytes -> decoded instructions
     bcases = [] if stats.get("timeouts", 0) >= 3 else ac.gen_builder_cases(ctx.rng, 300 if quick else 6000)
     b_rot = 0
+    b_kinds = dict(angle_only=0, angle_with_n_d=0, n_d_only=0)
     for rots in bcases:
-        em = impl.emit(rots)
-        if em is None:
-            ctx.violation("rot_X/Y/Z(angle=...) raised", replay_dict(rots[0][1], impl.default_tol, None, "builder raised",
-                                                                      "builder", rots=[[a, float(x).hex()] for a, x in rots]))
-            for ax, a in rots:
-                cases.append((a, impl.default_tol, None))
-            continue
-        pos = 0
-        for ax, a in rots:
-            want, _ = impl.spec(a, impl.default_tol)
-            k = len(want) if want is not None else 0
-            seg = em[pos:pos + k]
-            pos += k
-            got = [[n, d] for (_, n, d) in seg]
-            b_rot += 1
-            if want is None or got != want or any(m != "rot_" + ax.lower() for (m, _, _) in seg):
-                ctx.violation("emitted rotation instructions differ from get_angle_spec_from_float(angle)",
-                              replay_dict(a, impl.default_tol, got, "builder emits other steps than the toolbox returns",
-                                          "builder", axis=ax, want=want, emitted=[list(x) for x in em]))
-            check_one(ctx, impl, a, impl.default_tol, via="builder", got=got, st="emitted", extra=dict(axis=ax), stats=stats)
-            cases.append((a, impl.default_tol, got))
-            ctx.note_case((float(a).hex(), float(impl.default_tol).hex(), "builder"), nontrivial=bool(got))
-        if pos != len(em):
-            ctx.violation("more rotation instructions emitted than steps returned",
-                          replay_dict(rots[0][1], impl.default_tol, [list(x) for x in em], "surplus instructions", "builder",
-                                      rots=[[a, float(x).hex()] for a, x in rots]))
+        b_rot += builder_check(ctx, impl, rots, stats=stats, cases=cases)
+        for r in rots:
+            b_kinds["n_d_only" if r.get("angle") is None else "angle_with_n_d" if ("n" in r or "d" in r) else "angle_only"] += 1
 
     # ---- correspondence with the Coq model (vm_compute inside coqc)
-    n_coq = len(cases) if quick else min(len(cases), 150000)
+    n_coq = len(cases) if quick else min(len(cases), 80000)
     if not quick and n_coq < len(cases):
         # all deterministic families and builder cases, plus a random sample of the rest
         det = [i for i, c in enumerate(gen) if c[2] not in ("uniform[0,2pi)", "uniform[-2pi,0)")]
@@ -181,6 +232,35 @@ def run(ctx):
             samples_other_d=[[float(cases[sel[j]][0]).hex(), float(cases[sel[j]][1]).hex(), cases[sel[j]][2]]
                              for j, c in list(codes.items())[:200] if c == 1][:4])
         ctx.log(f"correspondence: {hist}")
+    # ---- float front end: observed (rest, tol_rest) vs PrimFloat model vs rational model, allowance
+    fmism = []
+    fcodes = ac.correspond_front(ctx, fcases)
+    if fcodes is not None:
+        fh = dict(cases=len(fcases), observed_in_the_implementation=len(fcases) - unobserved, replica_used=unobserved,
+                  primfloat_differs_from_observed=0, rational_differs_from_primfloat=0,
+                  allowance_exceeded_within_two_turns=0, allowance_exceeded_beyond_two_turns=0, rest_or_thr_out_of_range=0)
+        fbad = []
+        for j, bits in fcodes.items():
+            a_, t_ = fcases[j][0], fcases[j][1]
+            far = abs(math.floor(F(a_) / (2 * ac.PI_D))) > 2
+            if bits & 1:
+                fh["primfloat_differs_from_observed"] += 1
+            if bits & 2:
+                fh["rational_differs_from_primfloat"] += 1
+            if bits & 8:
+                fh["rest_or_thr_out_of_range"] += 1
+            if bits & 4:
+                fh["allowance_exceeded_beyond_two_turns" if far else "allowance_exceeded_within_two_turns"] += 1
+            if (bits & 11) or ((bits & 4) and not far):
+                fbad.append((j, bits))
+        ctx.coverage["front_end_correspondence"] = fh
+        ctx.log(f"front end: {fh}")
+        if fbad:
+            j, bits = fbad[0]
+            ctx.broken.append(f"float front end (AngleFloat.front_f / Angle.front / fe_ok) vs implementation: {len(fbad)} cases, first: "
+                              f"angle={float(fcases[j][0]).hex()} tol={float(fcases[j][1]).hex()} observed rest={float(fcases[j][2]).hex()} "
+                              f"tol_rest={float(fcases[j][3]).hex()} bits={bits}")
+            fmism = [(j, 100 + bits) for j, bits in fbad[:20]]
     if mism:
         i, c = mism[0]
         ctx.broken.append(f"correspondence Angle.spec_all vs get_angle_spec_from_float: {len(mism)} differing cases, first: "
@@ -188,6 +268,7 @@ def run(ctx):
 
     # ---- something no longer checks although the oracle held so far: search
     if ctx.broken and not [v for v in ctx.violations if v["key"] is None]:
+        mism = mism + fmism
         search(ctx, impl, mism, cases)
         if not [v for v in ctx.violations if v["key"] is None]:
             # vlib.finish() adds the no-failing-input-found violation only when there is no
@@ -201,7 +282,7 @@ def run(ctx):
                    [cases[0], cases[len(gen) // 3], cases[len(gen) // 2], cases[len(gen) - 1], cases[-1]]]
     ctx.coverage.update(dict(
         corpus_cases=n_corpus, classes=cls_count, result_lengths={str(k): v for k, v in sorted(len_count.items())},
-        tol_decades=tol_count, max_d_emitted=maxd, builder_connections=len(bcases), builder_rotations=b_rot,
+        tol_decades=tol_count, max_d_emitted=maxd, builder_connections=len(bcases), builder_rotations=b_rot, builder_routes=b_kinds,
         known_class_cases=stats.get("known_class_cases", 0),
         front_end=dict(
             what="error of rest=(angle % 2pi)/pi (float, as in the code) against 80-digit arithmetic, radians on the circle",
@@ -242,34 +323,20 @@ def search(ctx, impl, mism, cases):
         if not o["ok"] and o["key"] is None:
             return
     for rots in ac.gen_builder_cases(rng, 500):
-        em = impl.emit(rots)
-        if em is None:
-            ctx.violation("rot_X/Y/Z(angle=...) raised", replay_dict(rots[0][1], impl.default_tol, None, "builder raised",
-                                                                      "builder", rots=[[x, float(y).hex()] for x, y in rots]))
+        builder_check(ctx, impl, rots)
+        if [v for v in ctx.violations if v["key"] is None]:
             return
 
 
 def replay(ctx, path):
     rec = json.load(open(path))["replay"]
     impl = ac.Impl(ctx.repo)
-    angle, tol = float.fromhex(rec["angle"]), float.fromhex(rec["tol"])
     if rec.get("via") == "builder":
-        rots = [(a, float.fromhex(x)) for a, x in rec["rots"]] if "rots" in rec else [(rec.get("axis", "Z"), angle)]
-        em = impl.emit(rots)
-        print("replay (builder):", rots, "->", em)
-        if em is None:
-            ctx.violation("rot_X/Y/Z(angle=...) raised", rec)
-        else:
-            pos = 0
-            for ax, a in rots:
-                want, _ = impl.spec(a, impl.default_tol)
-                k = len(want or [])
-                got = [[n, d] for (_, n, d) in em[pos:pos + k]]
-                pos += k
-                if got != want:
-                    ctx.violation("emitted rotation instructions differ from get_angle_spec_from_float(angle)", rec)
-                check_one(ctx, impl, a, impl.default_tol, via="builder", got=got, st="emitted", extra=dict(axis=ax))
+        rots = rots_of_record(rec)
+        print("replay (builder):", rots, "->", impl.emit(rots))
+        builder_check(ctx, impl, rots)
     else:
+        angle, tol = float.fromhex(rec["angle"]), float.fromhex(rec["tol"])
         got, o = check_one(ctx, impl, angle, tol)
         print("replay:", repr(angle), repr(tol), "->", got, o)
     ctx.finish()
